@@ -330,6 +330,11 @@ impl<L: LSPLang> Backend<L> {
       .client
       .log_message(MessageType::LOG, "Publishing diagnostics.")
       .await;
+    // handlers interleave at every `.await`: if a newer version was stored (or the document
+    // was closed) in the meantime, publishing now could replace the newer diagnostics
+    if self.map.get(uri)?.version != text_doc.version {
+      return None;
+    }
     self
       .client
       .publish_diagnostics(text_doc.uri, diagnostics, Some(text_doc.version))
